@@ -121,7 +121,8 @@ def step (s : S) : Act → Option S
     match s.cur with
     | some c =>
       -- the caller removes its registration once it has consumed the whole reply
-      if c.tid = tid ∧ c.sent ∧ s.pending = [] ∧ ¬ hasReply s.inflight ∧ ¬ ready s.t c.uid then
+      -- (or before it was sent: the write raised an error that was pending on the channel)
+      if c.tid = tid ∧ (¬ c.sent ∨ (s.pending = [] ∧ ¬ hasReply s.inflight ∧ ¬ ready s.t c.uid)) then
         some { s with t := remove s.t c.uid, cur := none }
       else none
     | none => none
